@@ -381,6 +381,8 @@ TABLE = {
         ('is_p2pk(script) holds at the only call site; rust-bitcoin 0.32.5 is_p2pk accepts exactly `<push 33|65 bytes> OP_CHECKSIG`, whose first instruction decodes to Ok(PushBytes) — the `_` arm is dead', 'caller_is_p2pk'),
     'process_tx_pattern|Overflow(Add)|or_insert(entry(self.n_tx_types':
         ('one increment per processed output; 2^64 outputs cannot be processed', 'none'),
+    'process_tx_pattern|Overflow(Add)|get_mut(self.n_tx_types':
+        ('one increment per processed output; 2^64 outputs cannot be processed', 'none'),
     'insert_unspents|Overflow(Add)|sum(1);1':
         ('one increment per output of one transaction; bounded by the block size', 'none'),
     'print_transaction_types|call:unwrap|get(self.tx_first_occs':
